@@ -29,7 +29,8 @@ type apiGen struct {
 	r         *gen.R
 	env       *apiEnv
 	malformed bool
-	profile   string // "", "uniq" (collision-rich values, unique indexes first), "ttl" (dates, TTL index first)
+	profile   string // "", "uniq" (collision-rich values, unique indexes first), "ttl" (dates, TTL index first), "idx" (index scenarios, api_gen_idx.go)
+	idx       *idxScen
 	step      int
 	nowMs     int64
 	dbs       []string
@@ -44,6 +45,8 @@ func newAPIGen(r *gen.R, env *apiEnv, nowMs int64) *apiGen {
 			g.profile = "uniq"
 		case k < 28:
 			g.profile = "ttl"
+		case k < 50:
+			g.profile = "idx"
 		}
 	}
 	g.dbs = []string{apiDBs[r.N(2)]}
@@ -53,6 +56,9 @@ func newAPIGen(r *gen.R, env *apiEnv, nowMs int64) *apiGen {
 	g.colls = []string{apiColls[r.N(2)]}
 	if r.P(50) && (g.profile == "" || r.P(30)) {
 		g.colls = []string{"c", "e"}
+	}
+	if g.profile == "idx" {
+		g.initIdx()
 	}
 	return g
 }
@@ -650,6 +656,13 @@ func (g *apiGen) next0() *apiCall {
 	case g.profile == "ttl" && r.P(12):
 		c.M = "expire"
 		return c
+	}
+	if g.profile == "idx" {
+		// a scenario step on the scenario's collection, or (nil) noise from the general generator there
+		if sc := g.idxNext(c); sc != nil {
+			return sc
+		}
+		db, coll = c.DB, c.Coll
 	}
 	if g.profile == "uniq" && r.P(45) {
 		// collision pressure: inserts, updates, replacements and batches on the indexed fields
